@@ -29,7 +29,8 @@ type ConnHistory struct {
 	CutAt         int64
 	HandshakeErr  string
 	HandshakeDone bool
-	Offered       bool
+	Offered       bool // the listener took the connection into its backlog
+	Accepted      bool // Accept returned it to the server
 
 	C2S, S2C HalfRecord
 	Client   *ClientHistory
